@@ -385,7 +385,7 @@ def second_src() -> str:
     params = []
     for n, w in X.HEADER:
         params.append(f'parameters.Parameter("{n}", parameter_types.IntegerParameterType("{n}_T", {X._int(w)}))')
-    own = f"{C}.ContextCalibrator([{M}.Comparison('0', 'Z', use_calibrated_value=False)], {C}.PolynomialCalibrator([{C}.PolynomialCoefficient(5.0, 0), {C}.PolynomialCoefficient(2.0, 1)]))"
+    own = f"{C}.ContextCalibrator([{M}.Comparison('0', 'Z', use_calibrated_value=False)], {C}.PolynomialCalibrator([{C}.PolynomialCoefficient(3.0, 0), {C}.PolynomialCoefficient(2.0, 1), {C}.PolynomialCoefficient(2.0, 0)]))"
     step = f"{C}.SplineCalibrator([{C}.SplinePoint(0.0, 1.0), {C}.SplinePoint(10.0, 2.0), {C}.SplinePoint(20.0, 3.5)], order=0)"
     lookups = (f"[{M}.DiscreteLookup([{M}.Comparison('1', 'K'), {M}.Comparison('0', 'Z', use_calibrated_value=False)], 8), "
                f"{M}.DiscreteLookup([{M}.Comparison('1', 'K'), {M}.Comparison('1', 'Z', operator='>=', use_calibrated_value=False)], 16), "
@@ -492,7 +492,8 @@ def end_to_end_second(ctx: Ctx, RULE: str = "R1.e2"):
         ("only the second sibling matches (K=2, Z=1); enumeration label TRUE selects the grandchild; zero-length field ends the packet",
          pack_second(2, 1, 10, 0x7FFF, 0xF, 2 ** 64 - 1, 0, 1, b"\x22", bytes([9, 0]))),
         ("first group and first alternative of the second group (K=1, Z=0); most negative twosCompliment; spline between points", pack_second(1, 0, 15, 0x8000, 1, 2 ** 63, 1, 0, b"\x33", bytes([4]))),
-        ("second group false (K=1, Z=1): the concrete root ends the packet; spline at its first point", pack_second(1, 1, 0, 0, 0, 0, 0, 2, b"\x44\x55")),
+        ("second group false (K=1, Z=1): the concrete root ends the packet; spline at its first point; data field of exactly 512 bytes",
+         (lambda u: u + bytes(512 - len(u)))(pack_second(1, 1, 0, 0, 0, 0, 0, 2, b"\x44\x55"))),
         ("grandchild with an 8-bit trailing field (K=2, Z=1, EN=TRUE)", pack_second(2, 1, 20, -1, 3, W, 12, 1, b"\x66", bytes([3, 8, 0x5A]))),
         ("enumeration label FALSE: the child but not the grandchild (K=2, Z=2)", pack_second(2, 2, 5, 5, 7, 7, 7, 0, b"\x77", bytes([6]))),
     ]
